@@ -335,6 +335,41 @@ def check_field_pairing(rep, mod):
                     sample='%s u%s%s: {%s} both ways' % (tag, k[2:], k[:2], ', '.join(sorted(nm(o) for o in a))))
 
 
+def check_magic(rep, mod):
+    """RFC 1952: a member starts with ID1 = 0x1f, ID2 = 0x8b, CM = 8.  Each of the three comparisons must by itself send a mismatch to the documented
+    error return; a mismatch edge from which the parser can still be reached (e.g. `&&` instead of `||`) accepts headers with one wrong byte."""
+    R = rep.rule('R-HDR-MAGIC', 'isal_read_gzip_header: from the mismatch edge of each of the comparisons ID1 == 0x1f, ID2 == 0x8b, CM == 8 every path reaches the return with the constant ISAL_INVALID_WRAPPER '
+                 '(ID1, ID2) / ISAL_UNSUPPORTED_METHOD (CM) and nothing else (paths enumerated with phi resolution per edge)', floor=3, unit='comparisons')
+    V, drop = mirror.c_values('default', ['igzip_lib.h'], [(n, n) for n in ('ISAL_INVALID_WRAPPER', 'ISAL_UNSUPPORTED_METHOD')], 'c19_magic')
+    if drop:
+        raise AnalysisBroken('status codes missing')
+    f = mod.funcs.get('isal_read_gzip_header')
+    if f is None:
+        raise AnalysisBroken('isal_read_gzip_header not found')
+    want = {31: ('ID1 == 0x1f', V['ISAL_INVALID_WRAPPER']), 139: ('ID2 == 0x8b', V['ISAL_INVALID_WRAPPER']), 8: ('CM == 8', V['ISAL_UNSUPPORTED_METHOD'])}
+    found = {}
+    for i in f.all_insns():
+        if i.op == 'icmp' and i.extra['pred'] in ('eq', 'ne') and re.match(r'^\d+$', i.ops[1]) and int(i.ops[1]) in want:
+            t = f.blocks[i.block].insns[-1]
+            if t.op == 'br' and t.extra.get('cond') == i.dst:
+                found.setdefault(int(i.ops[1]), []).append((i, t))
+    for k, (name, code) in sorted(want.items()):
+        R.instance()
+        if len(found.get(k, [])) != 1:
+            R.fail('igzip/igzip_inflate.c:isal_read_gzip_header', 'the comparison %s was not found as a branch condition' % name, key='R-HDR-MAGIC|%d|missing' % k)
+            continue
+        i, t = found[k][0]
+        tt, tf = t.extra['targets']
+        mis = tt if i.extra['pred'] == 'ne' else tf
+        try:
+            res = irrules.nonzero_on_paths(mod, f, (i.block, mis, t), maxpaths=200)
+        except AnalysisBroken as e:
+            res = [(('unknown', str(e)), [mis])]
+        bad = [(c, p) for c, p in res if c != ('const', code)]
+        R.check(not bad, mod.where(f, i), 'after a mismatch of %s the function can still %s: a header with this byte wrong is not rejected with %d' %
+                (name, 'return %s via %s' % (bad[0][0][1] if bad else '', ' -> '.join(bad[0][1][:6])) if bad else '', code), key='R-HDR-MAGIC|%d' % k, sample='%s mismatch -> %d only' % (name, code))
+
+
 def main(tier):
     rep = Report('C19', tier, level='other')
     rep.undecided = UNDECIDED
@@ -351,6 +386,7 @@ def main(tier):
     check_retcodes(rep, mod)
     check_field_pairing(rep, mod)
     check_resume(rep, mod)
+    check_magic(rep, mod)
     import acct
     acct.check(rep, 'z', 4, field_offsets('struct isal_zstream', ['next_in', 'avail_in', 'total_in', 'next_out', 'avail_out', 'total_out']),
                field_offsets('struct inflate_state', ['next_in', 'avail_in', 'next_out', 'avail_out', 'total_out']), mod, only={'isal_write_gzip_header', 'isal_write_zlib_header'}, suffix='HDR-WRITERS')
